@@ -82,6 +82,9 @@ type Endpoint struct {
 	Delivered      int // total bytes returned from Read
 	emptyRun       int
 	MaxReadBuf     int // largest buffer ever offered to Read (lower bound of the reader's buffer capacity)
+	FailedWrites   int // Write calls that returned an error
+	FailedBy       map[string]int // the same, per calling task
+	InjectAfter    []byte // raw bytes a hostile peer appends right after the next Write of this endpoint
 	OpLog          []string
 }
 
@@ -245,7 +248,16 @@ func (e *Endpoint) Read(p []byte) (int, error) {
 	}
 }
 
-func (e *Endpoint) Write(p []byte) (int, error) {
+func (e *Endpoint) Write(p []byte) (k int, err error) {
+	defer func() {
+		if err != nil {
+			e.FailedWrites++
+			if e.FailedBy == nil {
+				e.FailedBy = map[string]int{}
+			}
+			e.FailedBy[taskName()]++
+		}
+	}()
 	n := e.N
 	t := e.task()
 	e.Ops++
@@ -273,6 +285,15 @@ func (e *Endpoint) Write(p []byte) (int, error) {
 		}
 		if k > orig {
 			k = orig
+		}
+		return k, err
+	}
+	if len(e.InjectAfter) > 0 {
+		k, err := e.writeBytes(t, op, p)
+		if err == nil {
+			inj := e.InjectAfter
+			e.InjectAfter = nil
+			e.Peer.Inject(inj)
 		}
 		return k, err
 	}
